@@ -7,6 +7,7 @@ import (
 	"fmt"
 	"io"
 	"strings"
+	"sync"
 	"time"
 
 	"golang.org/x/sync/semaphore"
@@ -24,6 +25,7 @@ import (
 func init() {
 	wk.Register("C03", c03)
 	wk.RegisterChild("c03cfg", c03cfgChild)
+	wk.RegisterChild("c03trickle", c03trickleChild)
 }
 
 type c03case struct {
@@ -370,6 +372,121 @@ func c03cfgChild(raw json.RawMessage, scratch string) {
 	wk.ChildDone(r)
 }
 
+// c03trickleChild: one trickle stream per case, under the filter variants of genC03cfg with thresholds out of reach.
+func c03trickleChild(raw json.RawMessage, scratch string) {
+	a := wk.ParseBatchArg(raw, nil)
+	log.SetLevel(log.LEVEL_NONE)
+	r := wk.ChildRes("C03")
+	inChild = true
+	base := prng.New(a.Seed).Split(0xC03)
+	for i := a.Start; i < a.End; i++ {
+		rng := base.At(uint64(i))
+		cfg := genC03cfg(rng, i)
+		cfg.SenderCount, cfg.SenderSize = 1024, 1<<30-1
+		cfg.apply()
+		c := &c03case{Index: i, Cfg: cfg, Mode: "isolated", Plan: "trickle", N: 24}
+		wk.ChildCase(i, c)
+		runC03trickle(r, c, rng)
+	}
+	wk.ChildDone(r)
+}
+
+// runC03trickle: "every forwarded command reaches the target within bounded time" judged per command while the
+// stream keeps flowing. The tool flushes at least every 500 ms; the bound used is five times that. A machine too
+// loaded to keep a 20 ms timer within 700 ms makes the case inconclusive instead.
+func runC03trickle(r resIface, c *c03case, rng *prng.R) {
+	db := rng.Pick(0, 1, 3)
+	cmds := genStream(rng, streamOpts{N: c.N, DBs: []int{db}, Keys: 6, KeyPrefix: prefixesFor(&c.Cfg), StartDB: -1})
+	// no barrier inside the trickle: drop re-SELECTs after the first command
+	var flat []srcCmd
+	for i, x := range cmds {
+		if i > 0 && strings.EqualFold(x.Name, "select") {
+			continue
+		}
+		flat = append(flat, x)
+	}
+	cmds = flat
+	pos := int64(0)
+	for i := range cmds {
+		pos += int64(len(encodeCmd(&cmds[i])))
+		cmds[i].End = pos
+	}
+	srv := miniredis.NewServer()
+	conn := srv.NewConn()
+	conn.BlockReceive = true
+	pr, pw := io.Pipe()
+	e2eIDs.Lock()
+	e2eIDs.n++
+	id := e2eIDs.n
+	e2eIDs.Unlock()
+	node := &slot.SyncNode{Id: id, Source: "10.9.8.6:6379", Target: []string{"127.0.0.1:1"}, SlotLeftBoundary: -1, SlotRightBoundary: -1}
+	ds := dbSync.NewDbSyncer(node, 9320, semaphore.NewWeighted(1))
+	ds.VerifRunIncr(bufio.NewReaderSize(pr, 1<<16), conn, 0, e2eRunID, 1000, c.Cfg.SenderCount, 65535)
+	var lagMu sync.Mutex
+	var maxLag time.Duration
+	stopLag := make(chan struct{})
+	go func() {
+		for {
+			select {
+			case <-stopLag:
+				return
+			default:
+			}
+			t := time.Now()
+			time.Sleep(20 * time.Millisecond)
+			if d := time.Since(t) - 20*time.Millisecond; d > 0 {
+				lagMu.Lock()
+				if d > maxLag {
+					maxLag = d
+				}
+				lagMu.Unlock()
+			}
+		}
+	}()
+	fedAt := map[int64]time.Time{}
+	for i := range cmds {
+		fedAt[cmds[i].End] = time.Now()
+		pw.Write(encodeCmd(&cmds[i]))
+		time.Sleep(time.Duration(rng.Range(150, 350)) * time.Millisecond)
+	}
+	want, _ := stripPings(expectedForward(cmds, &c.Cfg, 0))
+	snapshot := func() []fwdCmd {
+		srv.Mu.Lock()
+		lg := append([]miniredis.Logged{}, srv.Log...)
+		srv.Mu.Unlock()
+		got, _, _ := appliedCommands(lg, node.Source, conn.Sess.ID)
+		g, _ := stripPings(got)
+		return g
+	}
+	waitUntil(5*time.Second, func() bool { return len(snapshot()) >= len(want) })
+	close(stopLag)
+	got := snapshot()
+	lagMu.Lock()
+	lag := maxLag
+	lagMu.Unlock()
+	r.Case(fmt.Sprintf("trickle|%s|sc%d|resume%v", cfgClass(&c.Cfg), c.Cfg.SenderCount, c.Cfg.Resume))
+	r.Count("trickle_streams", 1)
+	var worst time.Duration
+	worstCmd := ""
+	for i := 0; i < len(want) && i < len(got); i++ {
+		if want[i].key() != got[i].key() {
+			break // content is judged by the other cases
+		}
+		if d := got[i].At.Sub(fedAt[want[i].End]); d > worst {
+			worst, worstCmd = d, want[i].key()
+		}
+		r.Count("trickle_commands_timed", 1)
+	}
+	r.Max("max_trickle_latency_ms", worst.Milliseconds())
+	if worst > 2500*time.Millisecond {
+		if lag > 700*time.Millisecond {
+			r.Inconcl(fmt.Sprintf("trickle latency %v measured while the machine delayed a 20 ms timer by %v", worst, lag))
+			return
+		}
+		r.Violation(fmt.Sprintf("C03|mode=isolated|outcome=not-flushed-in-bounded-time-while-stream-flows|resume=%v", c.Cfg.Resume), fmt.Sprintf("[%s] reached the target %.1fs after the source sent it, while commands kept arriving every 150-350 ms (sender.count %d never reached, no barrier); the tool's flush period is 0.5 s (timer lag in this process at most %v)", worstCmd, worst.Seconds(), c.Cfg.SenderCount, lag.Round(time.Millisecond)), c)
+	}
+}
+
 func containsInt(xs []int, x int) bool {
 	for _, v := range xs {
 		if v == x {
@@ -391,16 +508,27 @@ func c03(c *wk.Ctx) {
 		json.Unmarshal(d.Desc, &cs)
 		r.Violationf(fmt.Sprintf("C03|mode=%s|outcome=process-aborted", cs.Mode), json.RawMessage(d.Desc), "incremental sync ended the process (exit %d): %s", d.Result.Exit, firstPanicLine(d.Result.Stderr))
 	}
+	if idx, _, ok := wk.ReplayIndex(c.Replay); ok && idx >= 9000000 {
+		wk.ReplayOne(c, "c03trickle", nil, onDeath)
+		return
+	}
 	if wk.ReplayOne(c, "c03cfg", func(idx int) interface{} { return c03extra{CfgIdx: idx / 100000} }, onDeath) {
 		return
 	}
 	ncfg := c.N(20, 60)
 	per := c.N(40, 150)
-	wk.Parallel(ncfg, 16, func(i int) {
+	ntr := c.N(10, 120)
+	wk.Parallel(ncfg+ntr, 16, func(i int) {
+		if i >= ncfg {
+			k := 9000000 + (i - ncfg)
+			wk.RunBatch(c, "c03trickle", k, k+1, nil, 10*time.Minute, onDeath)
+			return
+		}
 		wk.RunBatch(c, "c03cfg", i*100000, i*100000+per, c03extra{CfgIdx: i}, 40*time.Minute, onDeath)
 	})
 	r.Floor("streams_e2e", 100)
 	r.Floor("streams_isolated", 200)
+	r.Floor("trickle_commands_timed", 40)
 	r.Floor("flush_batches_observed", 500)
 	r.Floor("forwarded_commands", 5000)
 	r.Assume("reference filter pipeline (lib/reffilter + expectedForward): db filter by SELECT tracking, script commands under filter.lua, sentinel hello, opinfo, MULTI/EXEC markers dropped, key filter per C13; PINGs are stripped from both sides before comparing (the statement does not place them); in the incremental path key decisions exist only for commands in the tool's table")
